@@ -22,7 +22,7 @@ CONFIG = dict(
     audit="Audit/C18.lean",
     required_theorems=["history_accepted", "fresh_load_exclusive", "live_load_has_record", "reconnect_only_logined_and_closed",
                        "transactions_never_overlap", "refused_while_held", "login_answered_at_most_once", "timeouts_release",
-                       "expired_login_is_released"],
+                       "expired_login_is_released", "expired_logout_is_released"],
     harness_pkg="./c18",
     go_flags=["-overlay=/verif/harness/c18/overlay/overlay.json"],
     mode="diff",
@@ -40,7 +40,8 @@ CONFIG = dict(
     rule="histories generated from one PRNG (VERIF_SEED): 1-2 accounts (a third one rarely) x 2-3 connections on two front-ends (plus, rarely, an "
          "unknown front-end, net id 0, an unknown logic server); ops = login (kick on/off), closed report, logined, re-online, logout request, logout done, "
          "abnormal logout, line switch begin/end, offline reply (ok/error), tick, clock advance aimed at just before / at / just after each of the "
-         "3 s / 30 s / 2 min / 3 min / 5 min / 30 min limits counted from the instants something with a limit started; 6-25 ops per history; "
+         "3 s / 30 s / 2 min / 3 min / 5 min / 30 min limits (the deadlines the implementation currently shows, or counted from the instants "
+         "something with a limit started); ~1% malformed lines (unknown op, account out of range, missing fields); 6-25 ops per history; "
          "plus every op sequence of length 3 (quick) / 5 (thorough) over a 14-op alphabet for 1 account x 2 connections, and a breadth-first search "
          "that tries each of 21 ops (incl. advances to 1 ms before each limit) from every distinct centre state reachable within 5 (quick) / 8 (thorough) ops; "
          "a case is non-trivial when "
